@@ -444,8 +444,10 @@ def plan(ctx):
             tag = f"{'/'.join(subpath) or '-'}:{mode}:{variant}"
             bases.append((shape, tag))
             base_items.append((shape, cfg, ["base", [], tag], chans))
-            # quick: foreign key zzq = 1 everywhere and additionally zzq = null in the cheap single-kind shapes
-            values = (1,) if shape == "all-in-one" else (1, None)
+            # quick: foreign key zzq = 1 everywhere and additionally zzq = null in all but the three most expensive
+            # parsers (a null value matters to check_values' skip_none, at every group-like / parser-level node kind
+            # of the other shapes)
+            values = (1,) if shape in USED_QUICK_SKIP else (1, None)
             # the spelling neighbours of defined keys (truncated / extended names): quick in the single-kind shapes;
             # thorough one pair per defined key there, and one pair per node in the fullest base of all-in-one
             if shape == "all-in-one":
@@ -605,7 +607,7 @@ def explore(ctx):
             "bases": [f"{s}:{t}" for s, t in bases],
             "mutations": len(mut_items),
             "channels": channels,
-            "foreign_key": "zzq = 1 (all shapes) and zzq = null (all shapes but all-in-one)"
+            "foreign_key": "zzq = 1 (all shapes) and zzq = null (all shapes but " + ", ".join(USED_QUICK_SKIP) + ")"
             if ctx.quick
             else "names {never-defined zzq, own name of the node, a key of a child node, a parameter of a sibling "
             "class, init_args} x values {1, null, {x: 1}} (values for zzq only)",
